@@ -120,6 +120,9 @@ def run(ctx):
     res = front.run_batch("ast", [c[1] for c in cases], per_proc=500 if ctx.quick() else 3000)
     for (kind, src, ex, descr), r in zip(cases, res):
         ex = fix_multi(ex)
+        if front.skipped(r):
+            ctx.count("not_judged_after_repeated_hangs")
+            continue
         if r["crash"] is not None:
             ctx.violation("crash:%s" % (r["crash"][1] if len(r["crash"]) > 1 else r["crash"][0],),
                           "parser crashed: %r" % (r["crash"],), dict(source=src, expected=ex),
